@@ -130,22 +130,26 @@ def overParts (c : Ctx) : List String :=
 
 def defaultInode : List String := ["framer", "me", "frame", "me", "actor", "me"]
 
-/-- the prepending block (only for an empty or relative `parts`) -/
-def prepend (c : Ctx) (inode : Option (List String)) (parts : List String) : List String :=
-  let fparts := framerParts c
-  let oparts := overParts c
-  let parts :=
-    match inode with
-    | some ip =>
-      if parts = [] ∨ ¬ (parts.head? = some "framer" ∨ parts.head? = some "me") then
-        let ip := if ip = [] ∧ oparts = [] ∧ fparts = [] then defaultInode else ip
-        ip ++ parts
-      else parts
-    | none => parts
+/-- `if self.inode is not None and (not parts or parts[0] not in ("framer", "me"))`: prepend the act
+inode, the default inode when there is no inode context at all -/
+def addInode (fparts oparts : List String) (inode : Option (List String)) (parts : List String) : List String :=
+  match inode with
+  | some ip =>
+    if parts = [] ∨ ¬ (parts.head? = some "framer" ∨ parts.head? = some "me") then
+      (if ip = [] ∧ oparts = [] ∧ fparts = [] then defaultInode else ip) ++ parts
+    else parts
+  | none => parts
+
+/-- `if not parts or parts[0] not in ("", "framer")`: prepend the frame and framer inode contexts -/
+def addCtx (fparts oparts : List String) (parts : List String) : List String :=
   if absOrFramer parts then parts
   else
     let parts := if headMe parts then parts.tail else oparts ++ parts
     if absOrFramer parts then parts else fparts ++ parts
+
+/-- the prepending block (only for an empty or relative `parts`) -/
+def prepend (c : Ctx) (inode : Option (List String)) (parts : List String) : List String :=
+  addCtx (framerParts c) (overParts c) (addInode (framerParts c) (overParts c) inode parts)
 
 /-- `actor.me` substitution: `parts[k:k+1] = nameToPath(self.actor.name)…split('.')` -/
 def substActor (c : Ctx) : List String → Except Err (List String)
@@ -293,33 +297,35 @@ def parseRelation : Nat → List String → String → Except ParseErr (List Str
   | 0, _, _ => .error .noTokens
   | fuel + 1, toks, framername =>
     match toks with
-    | "of" :: rest =>
-      match rest with
-      | [] => .error .noTokens
-      | rel :: rest =>
-        if rel = "root" then .ok ([], rest)
-        else if rel = "me" then .ok (["me"], rest)
-        else if rel = "framer" then do
-          let (name, rest) ← optName rest
-          let name := if name = "" then (if framername = "" then "me" else framername) else name
-          return (["framer", name], rest)
-        else if rel = "frame" then do
-          let (name, rest) ← optName rest
-          let name := if name = "" then "me" else name
-          let fn := if name = "main" then "main" else ""
-          let (fr, rest) ← parseRelation fuel rest fn
-          if fr ≠ [] ∧ (hasInner "frame" fr ∨ hasInner "actor" fr) then .error .spurious
-          else if fr ≠ [] then return (fr ++ ["frame", name], rest)
-          else return (["framer", if fn = "" then "me" else fn, "frame", name], rest)
-        else if rel = "actor" then do
-          let (name, rest) ← optName rest
-          let name := if name = "" then "me" else name
-          let (fr, rest) ← parseRelation fuel rest ""
-          if fr ≠ [] ∧ hasInner "actor" fr then .error .spurious
-          else if fr ≠ [] then return (fr ++ ["actor", name], rest)
-          else return (["framer", "me", "frame", "me", "actor", name], rest)
-        else .error .invalidRelation
-    | _ => .ok ([], toks)
+    | [] => .ok ([], [])
+    | t :: rest0 =>
+      if t = "of" then
+        match rest0 with
+        | [] => .error .noTokens
+        | rel :: rest =>
+          if rel = "root" then .ok ([], rest)
+          else if rel = "me" then .ok (["me"], rest)
+          else if rel = "framer" then do
+            let nr ← optName rest
+            let name := if nr.1 = "" then (if framername = "" then "me" else framername) else nr.1
+            return (["framer", name], nr.2)
+          else if rel = "frame" then do
+            let nr ← optName rest
+            let name := if nr.1 = "" then "me" else nr.1
+            let fn := if name = "main" then "main" else ""
+            let fr ← parseRelation fuel nr.2 fn
+            if fr.1 ≠ [] ∧ (hasInner "frame" fr.1 ∨ hasInner "actor" fr.1) then .error .spurious
+            else if fr.1 ≠ [] then return (fr.1 ++ ["frame", name], fr.2)
+            else return (["framer", if fn = "" then "me" else fn, "frame", name], fr.2)
+          else if rel = "actor" then do
+            let nr ← optName rest
+            let name := if nr.1 = "" then "me" else nr.1
+            let fr ← parseRelation fuel nr.2 ""
+            if fr.1 ≠ [] ∧ hasInner "actor" fr.1 then .error .spurious
+            else if fr.1 ≠ [] then return (fr.1 ++ ["actor", name], fr.2)
+            else return (["framer", "me", "frame", "me", "actor", name], fr.2)
+          else .error .invalidRelation
+      else .ok ([], toks)
 
 /-- REO_RelPath / REO_RelPathNode on the chunks of the path token -/
 def isRelPath (node : Bool) (chunks : List String) : Bool :=
